@@ -4,7 +4,7 @@
    code: the decoded value (rendered by the same printer as the input), an encoder error,
    a decoder error or a panic.  Error messages are not compared (class only). *)
 From Coq Require Import String.
-From Eino Require Import Base.Util Base.Universe Model.Ser.
+From Eino Require Import Base.Util Base.Universe Model.Ser Model.SerCheckpoint Model.SerStore.
 
 Inductive obs : Type := OOk (v : val) | OEncErr | ODecErr | OPanic.
 
@@ -24,7 +24,24 @@ Definition run_with (fx : fixes) (regx : registry) (env : senv) (v : val) : obs 
       | Ok v' => OOk v'
       end
   end.
-Definition run_case := run_with fixed.
+(* a *checkpoint goes through checkPointer.set / get and a store that already holds an
+   earlier checkpoint under the same id and then receives another one under another id
+   (Model/SerStore.v); the harness does the same with the real checkPointer *)
+Definition run_store (regx : registry) (env : senv) (v : val) : obs :=
+  let reg := (builtin_registry ++ regx)%list in
+  match enc_c fixed reg v with
+  | Err _ => OEncErr
+  | Panic => OPanic
+  | Ok _ =>
+      match store_scenario_c reg env v with
+      | Ok (Some v') => OOk v'
+      | Ok None => ODecErr
+      | Err _ => ODecErr
+      | Panic => OPanic
+      end
+  end.
+Definition run_case (regx : registry) (env : senv) (v : val) : obs :=
+  if ty_eqb (ty_of v) t_checkpoint_ptr then run_store regx env v else run_with fixed regx env v.
 
 Definition obs_eqb (a b : obs) : bool :=
   match a, b with
